@@ -24,7 +24,7 @@ THEOREMS = {
 }
 
 # VERIF_C10_MODE=fixed: the repository under test carries hooks/C10-fix.patch; the Lean side answers with emitFixed
-MODE = "fixed" if os.environ.get("VERIF_C10_MODE") == "fixed" else "current"
+MODE = "current" if os.environ.get("VERIF_C10_MODE") == "current" else "fixed"   # hooks/C10-fix-{1,2,3} are committed in /repo (4086218 04efdd9 7bfe5dc)
 
 
 def fields(line):
